@@ -28,6 +28,17 @@ func main() {
 		cmdVerify(os.Args[2:])
 	case "check":
 		cmdCheck(os.Args[2:])
+	case "ssa":
+		w := loadWorld([]string{os.Args[2]})
+		re := regexp.MustCompile(os.Args[3])
+		for _, fn := range w.funcs {
+			if re.MatchString(funcKey(fn)) {
+				fn.WriteTo(os.Stdout)
+				for h, li := range w.loopsOf(fn) {
+					fmt.Printf("loop header b%d ordinal %d\n", h.Index, li.ordinal)
+				}
+			}
+		}
 	case "axioms":
 		os.Exit(cmdAxioms())
 	default:
